@@ -144,14 +144,15 @@ def _while_slots(prog: Any) -> List[int]:
 
 
 def counted_loops(small: Sequence[Atom], tier: str, version: int = 8, free: Atom = FREE, max_subs: int = 1,
-                  kinds: Sequence[str] = ("assert", "ret", "ret1", "err", "if", "while", "call"), pad: Sequence[str] = ("int 7", "pop")) -> Iterator[str]:
+                  kinds: Sequence[str] = ("assert", "ret", "ret1", "err", "if", "while", "call"), pad: Sequence[str] = ("int 7", "pop"),
+                  max_size: Optional[int] = None) -> Iterator[str]:
     """L6 - every skeleton with at least one loop (size <= 3 quick / 4 thorough, 0..max_subs subroutines) whose
     loop conditions are counters (each loop iterates twice, then exits) x one tracked atom of the small
     alphabet in one of the other slots (or none); subroutines before/after main; a loop that opens a
     subroutine body also with the subroutine's own label as loop header.  Soundness spaces only (a
     counter is a run-time condition, not a direct check)."""
     seen: Set[bytes] = set()
-    n = 3 if tier == "quick" else 4
+    n = max_size if max_size is not None else (3 if tier == "quick" else 4)
     for nsubs in range(0, max_subs + 1):
         o = core.Opts(kinds=kinds, cond_level=0, nsubs=nsubs)
         for size in range(1, n + 1):
